@@ -1212,6 +1212,10 @@ class Assembler:
                         elif s2:
                             raise ExtractError("template: stray text in //@fn block (%s:%d)" % (tpl_path, j + 1))
                     j += 1
+                # constants of f64 that Verus does not know: optional everywhere (R11)
+                for pat, rep in (("f64::EPSILON", "vx_f64_epsilon()"), ("f64::MAX", "vx_f64_max()")):
+                    if not any(r[0] == pat for r in opts["replace"]):
+                        opts["replace"].append((pat, rep, True))
                 self.do_fn(parts[1:], sections, opts)
                 i = j + 1
             elif cmd == "invpair":
